@@ -211,6 +211,12 @@ def run_parent(prop: str, tier: str, seed: int, mod) -> int:
         for k, v in d["monitor_first_errors"].items():
             merged["monitor_first_errors"].setdefault(k, v)
         merged["hashseeds"].add(d["hashseed"])
+        for spec, v in d.get("anchor_lines", {}).items():
+            cur = merged.setdefault("anchor_lines", {}).setdefault(spec, {"hit": set(), "all": set()})
+            if isinstance(v, dict):
+                cur["hit"].update(v["hit"])
+                cur["all"].update(v["hit"])
+                cur["all"].update(v["missed"])
 
     # ---- verdict --------------------------------------------------------------------------------
     reasons = list(shard_fail)
@@ -275,6 +281,11 @@ def run_parent(prop: str, tier: str, seed: int, mod) -> int:
         "verdict": "violated" if merged["viol_count"] else ("inconclusive" if reasons else "held-on-observed"),
         "inconclusive_reasons": reasons,
     }
+    if merged.get("anchor_lines"):
+        cov["anchor_line_coverage"] = {
+            spec.split(":")[1]: {"lines_hit": len(v["hit"]), "lines_present": len(v["all"]),
+                                 "lines_never_executed": sorted(v["all"] - v["hit"])}
+            for spec, v in sorted(merged["anchor_lines"].items())}
     if getattr(mod, "EXHAUSTIVE_NOTE", None):
         cov["exhaustive_note"] = mod.EXHAUSTIVE_NOTE
     cov.update(merged["extra"])
